@@ -28,7 +28,9 @@ import (
 
 	sdkmath "cosmossdk.io/math"
 	abci "github.com/cometbft/cometbft/abci/types"
+	cryptoenc "github.com/cometbft/cometbft/crypto/encoding"
 	tmprotocrypto "github.com/cometbft/cometbft/proto/tendermint/crypto"
+	tmtypes "github.com/cometbft/cometbft/types"
 	cryptocodec "github.com/cosmos/cosmos-sdk/crypto/codec"
 	sdk "github.com/cosmos/cosmos-sdk/types"
 	"github.com/ethereum/go-ethereum/common"
@@ -76,6 +78,7 @@ type c06Step struct {
 	Opers       []c06Oper `json:"opers"`
 	NoRev       []string  `json:"norev"`
 	Panicked    bool      `json:"panicked"`
+	Cmt         int       `json:"cmt"` // real CometBFT ValidatorSet.UpdateWithChangeSet(prev, upd): 0 ok, 1 "would result in empty set", 2 other error
 	Upd         []c06KV   `json:"upd"`
 	After       []c06KV   `json:"after"`
 	TotalAfter  string    `json:"total_after"`
@@ -130,7 +133,7 @@ func (s c06Step) coq(in *c06Intern) string {
 		nr[i] = in.name(k)
 	}
 	return cApp("mkStep", cBool(s.EpochEnded), cBool(s.Marker), cZ(s.Max), c06KVs(in, s.Prev), cZstr(s.PrevTotal), cList(os), cList(nr),
-		cBool(s.Panicked), c06KVs(in, s.Upd), c06KVs(in, s.After), cZstr(s.TotalAfter), c06KVs(in, s.StoredUpd), cBool(s.MarkerAfter))
+		cBool(s.Panicked), cZ(int64(s.Cmt)), c06KVs(in, s.Upd), c06KVs(in, s.After), cZstr(s.TotalAfter), c06KVs(in, s.StoredUpd), cBool(s.MarkerAfter))
 }
 
 func (c c06Case) coq() string {
@@ -243,6 +246,36 @@ func (h *c06H) opers(ctx sdk.Context) ([]c06Oper, []keytypes.WrappedConsKey) {
 	return out, keys
 }
 
+// what the real CometBFT code (types.ValidatorSet.UpdateWithChangeSet, called by state.updateState for every block with a
+// non-empty update list) answers for (previous set, updates)
+func c06CometApply(prev []*tmtypes.Validator, upd []abci.ValidatorUpdate) (code int) {
+	defer func() {
+		if r := recover(); r != nil {
+			code = 2
+		}
+	}()
+	for _, u := range upd {
+		if u.Power < 0 {
+			return 2 // state.validateValidatorUpdates
+		}
+	}
+	vs := tmtypes.NewValidatorSet(prev)
+	changes, err := tmtypes.PB2TM.ValidatorUpdates(upd)
+	if err != nil {
+		return 2
+	}
+	if len(changes) == 0 {
+		return 0 // updateState does not call UpdateWithChangeSet for an empty list
+	}
+	if err := vs.UpdateWithChangeSet(changes); err != nil {
+		if strings.Contains(err.Error(), "would result in empty set") {
+			return 1
+		}
+		return 2
+	}
+	return 0
+}
+
 // ---- block drivers -------------------------------------------------------------------------------------------
 
 func (h *c06H) epochNow() (int64, bool) {
@@ -350,9 +383,21 @@ func (h *c06H) step(ops []string) c06Step {
 		tm, _ := cryptocodec.ToTmProtoPublicKey(pk)
 		chk(c06KeyStr(&tm), sdk.GetConsAddress(pk))
 	}
+	// the previous set as CometBFT holds it (built before EndBlock changes the store)
+	var tmPrev []*tmtypes.Validator
+	for _, v := range sk.GetAllExocoreValidators(ctx) {
+		pk, _ := v.ConsPubKey()
+		tm, _ := cryptocodec.ToTmProtoPublicKey(pk)
+		tpk, err := cryptoenc.PubKeyFromProto(tm)
+		if err != nil {
+			panic(err)
+		}
+		tmPrev = append(tmPrev, tmtypes.NewValidator(tpk, v.Power))
+	}
 	upd, panicked := h.endBlock()
 	s.Panicked = panicked
 	s.Upd = c06UpdKVs(upd)
+	s.Cmt = c06CometApply(tmPrev, upd)
 	if h.real {
 		ctx = h.app.BaseApp.NewContext(false, h.env.Header)
 	}
@@ -481,11 +526,50 @@ var c06USDPool = []string{
 	"100.7", "150", "200", "200", "200.999999999999999999", "201", "1000000", "9007199254740993",
 }
 
+// an operator that can opt in again (not opted in, no key removal pending), or -1
+func (h *c06H) canOptIn() int {
+	for _, c := range h.rng.Perm(len(h.env.Operators)) {
+		if !h.app.OperatorKeeper.IsOptedIn(h.ctx, h.env.Operators[c].String(), h.avsAddr) &&
+			!h.app.OperatorKeeper.IsOperatorRemovingKeyFromChainID(h.ctx, h.env.Operators[c], h.chainID) {
+			return c
+		}
+	}
+	return -1
+}
+
+// a key of the pool (or a genesis key) that nobody's reverse lookup holds at the moment, else any pool key
+func (h *c06H) freeKey() (int, keytypes.WrappedConsKey) {
+	for _, j := range h.rng.Perm(len(h.pool)) {
+		if found, _ := h.app.OperatorKeeper.GetOperatorAddressForChainIDAndConsAddr(h.ctx, h.chainID, h.pool[j].ToConsAddr()); !found {
+			return j, h.pool[j]
+		}
+	}
+	j := h.rng.Intn(len(h.pool))
+	return j, h.pool[j]
+}
+
 func (h *c06H) randOp(epochEnd bool) string {
 	r := h.rng
 	n := len(h.env.Operators)
 	i := r.Intn(n)
 	x := r.Intn(100)
+	// opt in again after a completed opt-out: taken half of the times it is possible, because the window is short
+	if c := h.canOptIn(); c >= 0 && r.Intn(2) == 0 {
+		j, _ := h.freeKey()
+		if r.Intn(5) == 0 {
+			j = r.Intn(len(h.pool)) // sometimes a key that may be in use / not yet pruned
+		}
+		res := h.opOptIn(c, j)
+		h.w.Count("op/optin-again/" + res)
+		if res == "err" && r.Intn(2) == 0 {
+			// most likely the self delegation fell below the minimum: top it up so that a later attempt passes
+			r1 := h.opDeposit(h.selfStaker(c), 100000000)
+			r2 := h.opDelegate(h.selfStaker(c), c, 100000000)
+			h.w.Count("op/topup/" + r2)
+			return fmt.Sprintf("optin-again(%d,%d)=%s;topup=%s,%s", c, j, res, r1, r2)
+		}
+		return fmt.Sprintf("optin-again(%d,%d)=%s", c, j, res)
+	}
 	if epochEnd && x < 55 {
 		// direct USD write
 		tot := sdkmath.LegacyMustNewDecFromStr(c06USDPool[r.Intn(len(c06USDPool))])
@@ -513,11 +597,11 @@ func (h *c06H) randOp(epochEnd bool) string {
 		res := h.opSetKey(i, j)
 		h.w.Count("op/setkey/" + res)
 		return fmt.Sprintf("setkey(%d,%d)=%s", i, j, res)
-	case x < 78:
+	case x < 80:
 		res := h.opOptOut(i)
 		h.w.Count("op/optout/" + res)
 		return fmt.Sprintf("optout(%d)=%s", i, res)
-	case x < 84:
+	case x < 85:
 		j := r.Intn(len(h.pool))
 		// prefer an operator that can opt in again (opt-out completed), when there is one
 		if r.Intn(4) > 0 {
@@ -532,7 +616,7 @@ func (h *c06H) randOp(epochEnd bool) string {
 		res := h.opOptIn(i, j)
 		h.w.Count("op/optin/" + res)
 		return fmt.Sprintf("optin(%d,%d)=%s", i, j, res)
-	case x < 89:
+	case x < 90:
 		res := h.opJail(i, true)
 		h.w.Count("op/jail/" + res)
 		return fmt.Sprintf("jail(%d)=%s", i, res)
@@ -682,6 +766,12 @@ func (h *c06H) emit(mode string, steps []c06Step, tags []string) {
 		if s.Panicked {
 			h.w.Count("step/panicked")
 		}
+		switch s.Cmt {
+		case 1:
+			h.w.Count("cometbft/refuses-empty-set")
+		case 2:
+			h.w.Count("cometbft/refuses-other")
+		}
 		if len(s.NoRev) > 0 {
 			h.w.Count("step/has-norev")
 		}
@@ -721,8 +811,63 @@ func runC06(a *Args) error {
 	if nChain < 2 {
 		nChain = 2
 	}
-	nCached := a.N - nChain
 	base := env.Ctx
+	// directed observations (not violations of C06): transactions that lead to an update list removing EVERY validator.
+	// CometBFT refuses such a list ("would result in empty set"): the chain halts.
+	nDirected := 0
+	directed := func(name string, body func() []c06Step) {
+		cc, _ := base.CacheContext()
+		h.real = false
+		h.ctx = cc
+		h.height = env.Header.Height
+		h.now = env.Header.Time
+		h.nonce = 5000
+		h.dead = false
+		h.emit("cached", body(), []string{"obs-C06-empty-validator-set", name})
+		nDirected++
+	}
+	// (a) every operator opts out of the dogfood AVS (MsgOptOutOfAVS) inside one epoch
+	directed("all-opt-out", func() []c06Step {
+		steps := []c06Step{}
+		h.beginNext(5 * time.Second)
+		ops := []string{}
+		for i := range env.Operators {
+			ops = append(ops, fmt.Sprintf("optout(%d)=%s", i, h.opOptOut(i)))
+		}
+		steps = append(steps, h.step(ops))
+		h.beginNext(h.untilEpochEnd() + time.Second)
+		steps = append(steps, h.step(nil))
+		return steps
+	})
+	// (b) every operator's self delegation drops below MinSelfDelegation (undelegations by the operators' own stakers):
+	// the operator module's epoch hook sets every active USD value to 0
+	directed("all-below-min-self-delegation", func() []c06Step {
+		steps := []c06Step{}
+		h.beginNext(5 * time.Second)
+		ops := []string{}
+		for i, oc := range env.Cfg.Operators {
+			amt := (oc.Deposit - 99) * 1000000 // leaves 99 USD of self delegation, minimum is 100
+			ops = append(ops, fmt.Sprintf("undelegate(self,%d,%d)=%s", i, amt, h.opUndelegate(h.selfStaker(i), i, amt)))
+		}
+		steps = append(steps, h.step(ops))
+		h.beginNext(h.untilEpochEnd() + time.Second)
+		steps = append(steps, h.step(nil))
+		return steps
+	})
+	// (c) every validator is jailed (downtime / double sign reported by the slashing and evidence modules)
+	directed("all-jailed", func() []c06Step {
+		steps := []c06Step{}
+		h.beginNext(5 * time.Second)
+		ops := []string{}
+		for i := range env.Operators {
+			ops = append(ops, fmt.Sprintf("jail(%d)=%s", i, h.opJail(i, true)))
+		}
+		steps = append(steps, h.step(ops))
+		h.beginNext(h.untilEpochEnd() + time.Second)
+		steps = append(steps, h.step(nil))
+		return steps
+	})
+	nCached := a.N - nChain - nDirected
 	for i := 0; i < nCached; i++ {
 		cc, _ := base.CacheContext()
 		h.real = false
